@@ -148,7 +148,7 @@ Theorem C11_eventually_file : forall s, freachable s ->
   (forall p u, p_mutex (proc_of (glob s) p) = Some u ->
      exists k s', k <= 3 /\ frun_n u k s = Some s' /\ p_mutex (proc_of (glob s') p) = None) /\
   (forall t th, fthr_at s t th ->
-     ((f_pc th = F_Flock /\ kcompat (f_mode th) (glob s) = true) \/ f_pc th = F_Lock1) ->
+     ((f_pc th = F_Flock /\ f_fail th = false /\ kcompat (f_mode th) (glob s) = true) \/ f_pc th = F_Lock1) ->
      p_mutex (proc_of (glob s) (f_proc th)) = None ->
      exists k s', k <= 4 /\ frun_n t k s = Some s' /\ fthr_at s' t (fset_pc th F_Unlock1)) /\
   (forall t th, fthr_at s t th -> f_pc th = F_InCS -> p_mutex (proc_of (glob s) (f_proc th)) = None ->
@@ -221,6 +221,21 @@ Theorem C11_lockdict_safe :
      exists s' th', lstep s t = Some s' /\ lthr_at s' t th' /\ l_pc th' = D_InCS).
 Proof. exact (conj ld_no_failure (conj ld_mutex_released ld_woken_enters)). Qed.
 Print Assumptions C11_lockdict_safe.
+
+(* Failed acquisitions (flock raising OSError; the "Guarantees failed" refusal) are events of RwLockFile.v: the
+   theorems above hold in the states after them as well -- a failed attempt never touches _readers / _writer.
+   Computed history: a reader holds; a write attempt and a read attempt of another thread of the same process fail;
+   the bookkeeping still is "one reader"; later the reader leaves and a writer of that process is admitted. *)
+Theorem C11_witness_failed_attempts :
+  freachable fs_after_failures /\ p_readers (proc_of (glob fs_after_failures) 0) = 1%Z /\
+  p_writer (proc_of (glob fs_after_failures) 0) = false /\ flocked_val (proc_of (glob fs_after_failures) 0) = FLR /\
+  count (fholds_in 0 R) (thr fs_after_failures) = 1 /\ k_sh (glob fs_after_failures) = 1 /\
+  match frun [0;0;0;0; 1;1;1;1;1] fs_after_failures with
+  | Some s => count (fin_cs W) (thr s) = 1 /\ p_writer (proc_of (glob s) 0) = true /\ p_readers (proc_of (glob s) 0) = 0%Z
+  | None => False
+  end.
+Proof. exact ex_file_failed_attempts. Qed.
+Print Assumptions C11_witness_failed_attempts.
 
 (* ================================================================== non-vacuity: the hypotheses are satisfiable *)
 Theorem C11_witness_two_readers :
